@@ -51,35 +51,37 @@ def case_single(kind, fam, uniform=False):
             d = f.dim
             D = 3 if kind in ("planestrain", "axisymmetric") else d  # integrand dimension
             tag = " uniform" if uniform else ""
+            # the differential volume is an argument: the region's own in the serial pass, an arbitrary weight in the threaded one
+            dVs = {False: reg.dV, True: reg.dV * rng.uniform(0.5, 2, reg.dV.shape)}
             for parallel in (False, True):
                 for bc in ((nq, nc), (1, 1)):
                     if kind == "scalar":
                         dm = reg.mesh.dim
-                        fem.IntegralForm([rnd(rng, *bc)], v=field, dV=reg.dV, grad_v=[False]).assemble(parallel=parallel)
-                        fem.IntegralForm([rnd(rng, 1, *bc)], v=field, dV=reg.dV, grad_v=[False]).assemble(parallel=parallel)
-                        fem.IntegralForm([rnd(rng, 1, dm, *bc)], v=field, dV=reg.dV, grad_v=[True]).assemble(parallel=parallel)
-                        fem.IntegralForm([rnd(rng, *bc)], v=field, dV=reg.dV, u=field, grad_v=[False], grad_u=[False]).assemble(parallel=parallel)
-                        fem.IntegralForm([rnd(rng, 1, dm, 1, dm, *bc)], v=field, dV=reg.dV, u=field, grad_v=[True], grad_u=[True]).assemble(parallel=parallel)
+                        fem.IntegralForm([rnd(rng, *bc)], v=field, dV=dVs[parallel], grad_v=[False]).assemble(parallel=parallel)
+                        fem.IntegralForm([rnd(rng, 1, *bc)], v=field, dV=dVs[parallel], grad_v=[False]).assemble(parallel=parallel)
+                        fem.IntegralForm([rnd(rng, 1, dm, *bc)], v=field, dV=dVs[parallel], grad_v=[True]).assemble(parallel=parallel)
+                        fem.IntegralForm([rnd(rng, *bc)], v=field, dV=dVs[parallel], u=field, grad_v=[False], grad_u=[False]).assemble(parallel=parallel)
+                        fem.IntegralForm([rnd(rng, 1, dm, 1, dm, *bc)], v=field, dV=dVs[parallel], u=field, grad_v=[True], grad_u=[True]).assemble(parallel=parallel)
                         continue
                     # linear forms
                     vec = rnd(rng, D, *bc)
                     if kind == "axisymmetric":
                         vec[-1] = 0.0  # a value-type form has no hoop component (see DESIGN C02)
-                    fem.IntegralForm([vec], v=field, dV=reg.dV, grad_v=[False]).assemble(parallel=parallel)
-                    fem.IntegralForm([rnd(rng, D, D, *bc)], v=field, dV=reg.dV, grad_v=[True]).assemble(parallel=parallel)
-                    fem.IntegralForm([rnd(rng, D, D, *bc)], v=field, dV=reg.dV).assemble(parallel=parallel)
+                    fem.IntegralForm([vec], v=field, dV=dVs[parallel], grad_v=[False]).assemble(parallel=parallel)
+                    fem.IntegralForm([rnd(rng, D, D, *bc)], v=field, dV=dVs[parallel], grad_v=[True]).assemble(parallel=parallel)
+                    fem.IntegralForm([rnd(rng, D, D, *bc)], v=field, dV=dVs[parallel]).assemble(parallel=parallel)
                     # the two-step path the solid bodies use: integrate(), then assemble(values=...)
-                    form2 = fem.IntegralForm([rnd(rng, D, D, D, D, *bc)], v=field, dV=reg.dV, u=field)
+                    form2 = fem.IntegralForm([rnd(rng, D, D, D, D, *bc)], v=field, dV=dVs[parallel], u=field)
                     form2.assemble(values=form2.integrate(parallel=parallel))
                     # bilinear forms, all grad combinations the field kind supports
-                    fem.IntegralForm([rnd(rng, D, D, D, D, *bc)], v=field, dV=reg.dV, u=field).assemble(parallel=parallel)
+                    fem.IntegralForm([rnd(rng, D, D, D, D, *bc)], v=field, dV=dVs[parallel], u=field).assemble(parallel=parallel)
                     if kind != "axisymmetric":
-                        fem.IntegralForm([rnd(rng, D, D, *bc)], v=field, dV=reg.dV, u=field, grad_v=[False], grad_u=[False]).assemble(parallel=parallel)
-                        fem.IntegralForm([rnd(rng, D, D, D, *bc)], v=field, dV=reg.dV, u=field, grad_v=[True], grad_u=[False]).assemble(parallel=parallel)
+                        fem.IntegralForm([rnd(rng, D, D, *bc)], v=field, dV=dVs[parallel], u=field, grad_v=[False], grad_u=[False]).assemble(parallel=parallel)
+                        fem.IntegralForm([rnd(rng, D, D, D, *bc)], v=field, dV=dVs[parallel], u=field, grad_v=[True], grad_u=[False]).assemble(parallel=parallel)
                     vg = rnd(rng, D, D, D, *bc)
                     if kind == "axisymmetric":
                         vg[-1] = 0.0  # value-type test function: no hoop component
-                    fem.IntegralForm([vg], v=field, dV=reg.dV, u=field, grad_v=[False], grad_u=[True]).assemble(parallel=parallel)
+                    fem.IntegralForm([vg], v=field, dV=dVs[parallel], u=field, grad_v=[False], grad_u=[True]).assemble(parallel=parallel)
             run.units["kind:%s%s" % (kind, tag)] += 1
         finally:
             attach.detach_all()
@@ -112,21 +114,22 @@ def case_mixed(kind, fam, n, disconnect=None):
             A = lambda: rnd(rng, D, D, D, D, *bc)
             B = lambda: rnd(rng, D, D, *bc)
             S = lambda: rnd(rng, *bc)
+            dVs = {False: reg.dV, True: reg.dV * rng.uniform(0.5, 2, reg.dV.shape)}
             for parallel in (False, True):
                 # mode 1: linear
-                fem.IntegralForm([B()] + [S() for _ in range(n - 1)], v=field, dV=reg.dV).assemble(parallel=parallel)
+                fem.IntegralForm([B()] + [S() for _ in range(n - 1)], v=field, dV=dVs[parallel]).assemble(parallel=parallel)
                 # mode 2: upper triangle
                 if n == 2:
                     blocks = [A(), B(), S()]
                 else:
                     blocks = [A(), B(), B(), S(), S(), S()]
-                fem.IntegralForm(blocks, v=field, dV=reg.dV, u=field).assemble(parallel=parallel)
+                fem.IntegralForm(blocks, v=field, dV=dVs[parallel], u=field).assemble(parallel=parallel)
                 # absent blocks are zero
                 nb = list(blocks)
                 nb[1] = None
                 if n == 3:
                     nb[3] = None
-                fem.IntegralForm(nb, v=field, dV=reg.dV, u=field).assemble(parallel=parallel)
+                fem.IntegralForm(nb, v=field, dV=dVs[parallel], u=field).assemble(parallel=parallel)
                 if kind != "axisymmetric":
                     # mode 3: full (Cartesian / plane strain)
                     if n == 2:
@@ -134,7 +137,7 @@ def case_mixed(kind, fam, n, disconnect=None):
                     else:
                         full = [A(), B(), B(), B(), S(), S(), B(), S(), S()]
                     try:
-                        K = fem.IntegralForm(full, v=field, dV=reg.dV, u=field,
+                        K = fem.IntegralForm(full, v=field, dV=dVs[parallel], u=field,
                                              grad_v=[True] + [False] * (n - 1), grad_u=[True] + [False] * (n - 1))
                         K.assemble(parallel=parallel)
                     except Exception as exc:
@@ -198,6 +201,20 @@ def case_form(rep):
 
         Kmref = fem.IntegralForm([cdya_ik(Id, Id), Id.copy(), -0.5 * np.ones((1, 1))], v=fm, dV=reg.dV, u=fm).assemble().toarray()
 
+        # the same weak forms with a caller-supplied differential volume (dx=): equal to the array forms with dV = that array
+        w = reg.dV * rng.uniform(0.5, 2, reg.dV.shape)
+        Kw = fem.IntegralForm([C4], v=field, dV=w, u=field).assemble().toarray()
+        rw = fem.IntegralForm([bq], v=field, dV=w, grad_v=[False]).assemble().toarray().ravel()
+        Kmw = fem.IntegralForm([cdya_ik(Id, Id), Id.copy(), -0.5 * np.ones((1, 1))], v=fm, dV=w, u=fm).assemble().toarray()
+        bilw = fem.Form(v=field, u=field, dx=w, kwargs={"mu": mu, "lmbda": lm})(lambda: list(bil.weakform))
+        linw = fem.Form(v=field, dx=w, kwargs={"b": bvec})(lambda: list(lin.weakform))
+        mixw = fem.Form(v=fm, u=fm, dx=w)(lambda: list(mix.weakform))
+        for parallel in (False, True):
+            for name, got, ref in (("bilinear", bilw.assemble(parallel=parallel).toarray(), Kw),
+                                   ("linear", linw.assemble(parallel=parallel).toarray().ravel(), rw),
+                                   ("mixed", mixw.assemble(parallel=parallel).toarray(), Kmw)):
+                run.compare("form.dx", "form=%s clause=dx-is-the-differential-volume" % name, maxabs(got - ref) / maxabs(ref), 1e-12,
+                            "Form(dx=w) differs from the equivalent IntegralForm(dV=w)", unit="form:dx:" + name, config=(fam, "dx", name, parallel))
         # thread hooks: recording Thread + yield injection in `contribution` and the weak forms
         orig_B, orig_L = EB.Thread, EL.Thread
         EB.Thread = EL.Thread = sched.RecordingThread
